@@ -23,7 +23,7 @@ PROP = "C11"
 PREP: Dict[str, Any] = {}
 _state: Dict[str, Any] = {}
 
-RUNS = {"quick": 1500, "thorough": 30000}
+RUNS = {"quick": 3000, "thorough": 60000}
 WALL_CAP = {"quick": 420.0, "thorough": 4200.0}
 CORPUS = {"quick": (40, 3500), "thorough": (160, 7000)}  # (templates, max bytes)
 
@@ -327,11 +327,17 @@ def gen_workload(rseed: int, tier: str) -> Dict[str, Any]:
         hot = [k for k in keys if k[1] in ("build_database", "parse_blueprint", "locate_table", "parse", "_set_syntax",
                                           "build", "get_reference_blueprints", "add", "add_table", "add_reference")]
         opcodes = g.choice(hot if hot and g.random() < 0.7 else keys)
-    return {"threads": threads, "warm": warm, "opcodes": opcodes,
+    # own-only runs: pyparsing frames are not traced at all (no pre-emption inside the dependency), which makes
+    # a run ~10x cheaper; with the grammar lock in place the interleavings that matter for PyDBML-level sharing
+    # are those of the build phase and of the callers' own code
+    trace_dep = nthreads > 1 and not opcodes and g.random() < 0.45
+    return {"threads": threads, "warm": warm, "opcodes": opcodes, "trace_dep": trace_dep,
             "docs": {str(i): docs[i]["text"] for i in used},
             "doc_names": {str(i): docs[i]["name"] for i in used},
             "pristine": {f"{i}:{a}": pristine[f"{i}:{a}"] for i in used for a in (0, 1)},
-            "calib": {f"{i}:{a}": PREP["calib"].get(f"{i}:{a}", [3000, 100000]) for i in used for a in (0, 1)},
+            "calib": {f"{i}:{a}": PREP["calib"].get(f"{i}:{a}", [3 * len(docs[i]["text"]) + 20,
+                                                                  400 * len(docs[i]["text"]) + 2000])
+                      for i in used for a in (0, 1)},
             "params": {"nthreads": nthreads, "fail_share": fail_share, "ap_mode": ap_mode, "rend_mode": rend_mode}}
 
 
@@ -346,14 +352,23 @@ def gen_policy(rseed: int, wl: Dict[str, Any]) -> S.Policy:
                 c = wl["calib"].get(f"{op[1]}:{int(op[2])}", [3000, 100000])
                 o += c[0]
                 d += c[1]
-        hor_own.append(max(o, 50) * (8 if wl.get("opcodes") else 1))
-        hor_dep.append(max(d, 500))
+        jit = math.exp(g.uniform(math.log(0.3), math.log(3.0)))
+        hor_own.append(int(max(o, 50) * (8 if wl.get("opcodes") else 1) * jit))
+        hor_dep.append(int(max(d, 500) * jit))
     mode = g.choice(["pct-own", "pct-own", "pct-own", "pct-dep", "bernoulli", "bernoulli", "quantum", "region"])
     if len(wl["threads"]) == 1:
         return S.Policy()
     if isinstance(wl.get("opcodes"), list):
         hz = int(math.exp(g.uniform(math.log(4), math.log(3000))))
         return S.PCT(g, "focus", g.choice([1, 1, 2]), [hz] * len(wl["threads"]))
+    if not wl.get("trace_dep", True):
+        m2 = g.choice(["pct-own", "pct-own", "pct-own", "bernoulli-own", "region"])
+        if m2 == "pct-own":
+            return S.PCT(g, "own", g.choice([1, 2, 3]), hor_own)
+        if m2 == "bernoulli-own":
+            return S.Bernoulli(g, math.exp(g.uniform(math.log(1e-3), math.log(0.3))))
+        return S.RegionBiased(g, math.exp(g.uniform(math.log(0.01), math.log(0.5))),
+                              math.exp(g.uniform(math.log(1e-4), math.log(1e-1))))
     if mode == "pct-own":
         return S.PCT(g, "own", g.choice([1, 2, 3]), hor_own)
     if mode == "pct-dep":
@@ -527,7 +542,7 @@ def execute(wl: Dict[str, Any], policy: S.Policy, step_cap: int = 20_000_000) ->
                 th.untraced -= 1
         return script
 
-    sc = S.Scheduler(policy, st["own_root"], st["dep_root"], step_cap=step_cap)
+    sc = S.Scheduler(policy, st["own_root"], st["dep_root"] if wl.get("trace_dep", True) else (), step_cap=step_cap)
     if wl.get("opcodes"):
         codes = own_code_objects()
         if isinstance(wl["opcodes"], list):   # focus mode: instruction events in one function only
@@ -658,7 +673,9 @@ class E1Driver:
 
     def prepare_shard(self, seed: int, tier: str, hashseed: str, prep_dir: Optional[str]) -> None:
         workers = int(os.environ.get("VERIF_PREP_WORKERS", "8"))
-        prepare(seed, tier, workers)
+        # step-count calibration by a traced solo parse costs ~20 s per batch; the estimate own ~ 3 x len,
+        # dependency ~ 400 x len (measured: within a factor 3) with a per-run jitter serves the PCT horizons as well
+        prepare(seed, tier, workers, calibrate=bool(os.environ.get("VERIF_E1_CALIBRATE")))
         if prep_dir:
             os.makedirs(prep_dir, exist_ok=True)
             with open(os.path.join(prep_dir, "pristine.json"), "w") as f:
@@ -709,6 +726,7 @@ class E1Driver:
             counters["fault:opcode-level-pre-emption-run"] = 1
         if isinstance(wl.get("opcodes"), list):
             counters["fault:opcode-focus-run"] = 1
+        counters["tracing:" + ("own+dependency" if wl.get("trace_dep", True) else "own-only")] = 1
         aps = {op[2] for ops in wl["threads"] for op in ops if op[0] == "parse"}
         if len(aps) == 2 and len(wl["threads"]) > 1:
             counters["fault:option-mix"] = 1
@@ -727,7 +745,7 @@ class E1Driver:
             v = res["violations"][0]
             payload = {"engine": "E1", "property": PROP, "seed": seed, "run": i, "run_seed": rseed,
                        "hashseed": hashseed, "tier": tier,
-                       "workload": {k: wl[k] for k in ("threads", "warm", "opcodes", "docs", "doc_names", "pristine")},
+                       "workload": {k: wl[k] for k in ("threads", "warm", "opcodes", "trace_dep", "docs", "doc_names", "pristine")},
                        "schedule": res["schedule"], "policy": res["policy"], "violation": v,
                        "all_violations": [x["signature"] for x in res["violations"]],
                        "event_digest": sched_dig, "ops": [None] * (res["switches"] + sum(len(o) for o in wl["threads"]))}
